@@ -267,5 +267,65 @@ def Ev.asAlways : Ev → Ev
   | .truncate T => .truncate T
   | .reopen c r => .reopen c r
 
+/-! ## the schedule of `run_always_mode`, `Shutdown` messages included
+
+  Where the loop is when it takes a message decides what a `Shutdown` does: at the TOP of the loop
+  (`recv().await`) or in the DRAIN loop (`try_recv`) it ends the actor (after a final flush); inside the
+  group-commit wait (`timeout(.., async { while .. recv().await .. })`, phase BLOCK) the `return` only
+  leaves the async block — the actor flushes, answers the shutdown request, and goes on.  After the
+  first message the loop enters the wait iff `0 < entries_since_sync < max_entries`, otherwise the
+  drain loop (iff `entries_since_sync < max_entries`); reaching `max_entries` flushes and goes back to
+  the top.  Once the actor has stopped nobody handles the remaining messages: a `write_durable` caller
+  gets an I/O error ("actor unavailable" / "dropped ack channel"). -/
+
+/-- a mailbox message: an event of the model, a message that changes nothing (a truncation whose
+    `store.list()` fails: logged), or `Shutdown` -/
+inductive Msg where
+  | ev (e : Ev)
+  | noop
+  | shutdown
+  deriving Repr
+
+inductive Phase where
+  | top | block | drain
+  deriving DecidableEq, Repr
+
+structure Sched where
+  a : Actor
+  phase : Phase := .top
+  alive : Bool := true
+  /-- `write_durable` callers whose message was never handled -/
+  dropped : List Nat := []
+
+def Msg.ids : Msg → List Nat
+  | .ev (.write w) => [w.id]
+  | _ => []
+
+def Sched.step (maxEntries : Nat) (φ : Nat → Outcome) (fmt : Format) (crc : Bytes → Nat) (s : Sched) (m : Msg) : Sched :=
+  if !s.alive then { s with dropped := s.dropped ++ m.ids } else
+  match m with
+  | .shutdown =>
+    let a1 := Actor.flush true φ s.a
+    (match s.phase with
+    | .block => { s with a := a1, phase := .drain }
+    | _ => { s with a := a1, alive := false })
+  | m =>
+    let a1 := match m with
+      | .ev e => Actor.step true false φ fmt crc s.a e
+      | _ => s.a
+    if maxEntries ≤ a1.esync then { s with a := Actor.flush true φ a1, phase := .top }
+    else
+      (match s.phase with
+      | .top => { s with a := a1, phase := if a1.esync = 0 then .drain else .block }
+      | ph => { s with a := a1, phase := ph })
+
+/-- the mailbox ran empty: the wait times out / the drain loop breaks, what is pending is flushed -/
+def Sched.endBurst (φ : Nat → Outcome) (s : Sched) : Sched :=
+  if s.alive then { s with a := Actor.flush true φ s.a, phase := .top } else s
+
+def Sched.runBursts (maxEntries : Nat) (φ : Nat → Outcome) (fmt : Format) (crc : Bytes → Nat) (s : Sched)
+    (bursts : List (List Msg)) : Sched :=
+  bursts.foldl (fun s g => Sched.endBurst φ (g.foldl (Sched.step maxEntries φ fmt crc) s)) s
+
 end Wal
 end RedisVerif
